@@ -50,7 +50,7 @@ type decWorld struct{}
 func (decWorld) Name() string { return "W-DEC" }
 
 var decFaultKinds = []string{"net.bitflip", "net.bytesub", "net.multi", "net.truncate", "net.extend", "net.leninflate", "net.concat",
-	"byz.tree", "byz.tree", "json.member", "json.member", "net.nest", "net.pad", "net.hdr", "net.splice", "byz.members"}
+	"byz.tree", "byz.tree", "json.member", "json.member", "net.nest", "net.pad", "net.hdr", "net.splice", "byz.members", "byz.profile"}
 
 var decMsgKinds = []string{"cose", "cose", "cbor", "cbor", "json", "json", "swcbor", "swjson", "shapecbor", "shapejson"}
 
@@ -145,6 +145,8 @@ func (decWorld) Gen(prop, tier string, idx int, r *Rng) *Trace {
 					fo = Op{K: "fault", F: k, A: []int{100, 5000, 60000}[r.Intn(3)], B: r.Intn(256), C: r.Intn(64)}
 				case "byz.members":
 					fo = Op{K: "fault", F: k, A: []int{30, 300, 3000, 12000}[r.Intn(4)]}
+				case "byz.profile":
+					fo = Op{K: "fault", F: k, A: r.Intn(10)}
 				default:
 					fo = genNetFault(r, []string{k}, nMsg)
 				}
@@ -367,6 +369,8 @@ func applyDecFault(s *decSlot, op Op, donor []byte, cfg *DecCfg) bool {
 			nb = append(append(append([]byte{}, target[:sp[0]]...), nest...), target[sp[1]:]...)
 			fired = true
 		}
+	case "byz.profile":
+		nb, fired = applyProfileFault(target, op.A, isJSONKind(s.kind))
 	case "byz.members":
 		n := op.A
 		if n > 13000 {
